@@ -16,6 +16,9 @@ MaxLen == atoi(IOEnv.GEN_LEN)
 AllHeaders == IOEnv.GEN_HDR = "all"
 
 Ids == {0, 1, 2}          \* 0 = attribute missing
+(* where the input ends: inside a tag, after an opened edge, inside weight data of either key,
+   inside other data, inside a comment, inside a CDATA section *)
+TruncPlaces == {"tag", "edge", "data", "dataalt", "dataother", "comment", "cdata"}
 NodeUnits == {<<[t |-> "N", id |-> i, open |-> o]>> : i \in Ids, o \in BOOLEAN}
 EmptyEdgeUnits == {<<[t |-> "E", s |-> a, d |-> b, open |-> FALSE]>> : a \in Ids, b \in Ids}
 DataForms ==
@@ -26,7 +29,8 @@ OpenEdgeUnits ==
   \cup {<<[t |-> "E", s |-> a, d |-> b, open |-> TRUE], dd, [t |-> "/E"]>> : a \in {1, 2}, b \in {1, 2}, dd \in DataForms}
 OtherUnits == {<<[t |-> "D", key |-> "weight", txt |-> "num", w |-> 7]>>,   \* weight data outside an edge
                <<[t |-> "X"]>>, <<[t |-> "T"]>>, <<[t |-> "C"]>>,
-               <<[t |-> "DUP", id |-> 1]>>, <<[t |-> "ENT"]>>, <<[t |-> "BADEND"]>>, <<[t |-> "TRUNC"]>>}
+               <<[t |-> "DUP", id |-> 1]>>, <<[t |-> "ENT"]>>, <<[t |-> "BADEND"]>>}
+              \cup {<<[t |-> "TRUNC", at |-> a]>> : a \in TruncPlaces}
 Units == NodeUnits \cup EmptyEdgeUnits \cup OpenEdgeUnits \cup OtherUnits
 
 KeyForms == IF AllHeaders THEN {"none", "std", "alt", "nofor", "noid", "othername"} ELSE {"std"}
